@@ -180,6 +180,11 @@ func ProjectYAML(g [][2]string, procs []*lProc) ([]byte, bool) {
 				m[k] = v
 			}
 		}
+		// by convention of this harness a process whose name ends in "_off" is declared `disabled: true`
+		// (it is not started with the project but can be started by name later: it is loaded like any other)
+		if strings.HasSuffix(p.name, "_off") {
+			m["disabled"] = true
+		}
 		rp, ok1 := probeYAML(p.rp)
 		lp, ok2 := probeYAML(p.lp)
 		if !ok1 || !ok2 {
@@ -316,7 +321,11 @@ func (c *loadC) Gen(r *rand.Rand, tier string, emit func(string)) {
 		ps := []string{}
 		for j := 0; j < k; j++ {
 			rep := []int{0, 1, 2, 3, 3, 4, 10, 11}[r.Intn(8)]
-			ps = append(ps, GenLProc(r, []string{"a", "b", "c"}[j], rep))
+			name := []string{"a", "b", "c"}[j]
+			if r.Intn(4) == 0 {
+				name += "_off"
+			}
+			ps = append(ps, GenLProc(r, name, rep))
 		}
 		emit("ld " + g + " " + strings.Join(ps, " "))
 	}
